@@ -63,9 +63,10 @@ Res(ev, p, all) ==
         \* an orphan the model predicts is the recorded finding (quicswarm.putSession overwrites a live session)
         NoOrphanReplaced |-> ev.settled /\ ~isEnd /\ ~NoOrphanP(ev.orph) /\ ev.tr = "quic" /\ Explained(ev),
         NoOrphan |-> ev.settled /\ ~isEnd /\ ~NoOrphanP(ev.orph) /\ ~(ev.tr = "quic" /\ Explained(ev)),
-        AfterClose |-> ev.settled /\ ~AfterCloseP(ev.tr, ents, ClosedIn(ev)),
-        \* when every node has been closed nothing is open any more (ssh: KF_SshCloseKeepsConns, not claimed)
-        AllReleasedAtEnd |-> ev.settled /\ isEnd /\ ev.tr = "quic" /\ ev.nlive # 0,
+        AfterClose |-> ev.settled /\ ~AfterCloseP(ents, ClosedIn(ev)),
+        \* when every node has been closed nothing is open any more (quic: no goroutine inside connection.run;
+        \* ssh: no TCP connection open at the forwarders)
+        AllReleasedAtEnd |-> ev.settled /\ isEnd /\ ev.nlive # 0,
         OkOnlyIfPeer |-> \E o \in gops : ~OkOnlyIfPeerP(OpObsT(ev, p, o)),
         AskAnswered |-> \E o \in gops : ~AskAnsweredP(OpObsT(ev, p, o)),
         HealthySucceeds |-> \E o \in gops : ~HealthySucceedsP(OpObsT(ev, p, o)),
